@@ -86,6 +86,8 @@ def run_tlc(spec_dir, module, cfg, workers=8, timeout=600, extra_args=(), files=
     if dfs:
         jopts += " -Dtlc2.tool.queue.IStateQueue=StateDeque"
     jopts += " -Xss256m"
+    # the JVM default (a quarter of the machine) times several TLC runs side by side invites the OOM killer
+    jopts += " -Xmx%s" % (heap or os.environ.get("VERIF_TLC_HEAP", "10g"))
     env["JAVA_TOOL_OPTIONS"] = jopts.strip()
     cmd = ["timeout", str(timeout), "tlc", "-workers", str(workers), "-metadir", os.path.join(d, "meta"),
            "-config", "_run.cfg"] + list(extra_args) + [module + ".tla"]
